@@ -103,6 +103,26 @@ func VerifC12DecodeAndMerge(data []byte) ([]VerifC12Diag, error) {
 	return out, nil
 }
 
+// VerifC12DecodeRuns is decodeGob: the runs contained in `-f binary` output, as runFromLintResult keeps them.
+func VerifC12DecodeRuns(data []byte) ([]VerifC12Run, error) {
+	runs, err := decodeGob(bytes.NewReader(data))
+	if err != nil {
+		return nil, err
+	}
+	var out []VerifC12Run
+	for _, r := range runs {
+		var vr VerifC12Run
+		for f := range r.checkedFiles {
+			vr.CheckedFiles = append(vr.CheckedFiles, f)
+		}
+		for _, d := range r.diagnostics {
+			vr.Diagnostics = append(vr.Diagnostics, verifC12Out(d))
+		}
+		out = append(out, vr)
+	}
+	return out, nil
+}
+
 // VerifC11PrintOpts are the flags printDiagnostics reads.
 type VerifC11PrintOpts struct {
 	Formatter       string
